@@ -98,6 +98,21 @@ void token_pool_drain(void) {
 }
 
 
+#ifdef MMD6_VERIF
+/// Report pool state to the verification harness (read-only)
+void mmd6_verif_pool_stats(long * uses, long * slabs, long * used_in_last, long * exists) {
+	*uses = token_pool_count;
+	*exists = token_pool ? 1 : 0;
+	*slabs = token_pool ? (long) token_pool->allocated->size : 0;
+	*used_in_last = 0;
+
+	if (token_pool && token_pool->next && token_pool->allocated->size) {
+		char * slab = stack_peek(token_pool->allocated);
+		*used_in_last = ((char *) token_pool->next - slab) / token_pool->object_size;
+	}
+}
+#endif
+
 /// Free token allocator pool
 void token_pool_free(void) {
 	if (token_pool_count == 0) {
